@@ -45,6 +45,10 @@ type xCase struct {
 	// WideSum: in the registered pass the services of 64-bit checksum fields return values that
 	// need all 64 bits (not for Java, whose service interface returns an Integer)
 	WideSum bool `json:"wide_sum,omitempty"`
+	// AllGens: all six generators run over the one parsed model, in the order of cmd.Compile
+	// (Lua, Rust, Go, Java, Python, C++), as when every output flag is given; only the files of
+	// Langs are used. A generator that changes the model shows in the targets after it.
+	AllGens bool `json:"all_gens,omitempty"`
 }
 
 // langRun is what one language did with a case.
@@ -98,7 +102,22 @@ func runCase(k xCase, keep bool) *xRun {
 			}
 		}
 	}
+	if k.AllGens {
+		ordered = append([]string{}, inproc.Langs...)
+	}
 	res := inproc.Compile(x.Text, ordered)
+	if k.AllGens {
+		// a target that was not asked for may refuse the model (no root packet)
+		for l := range res.GenErr {
+			wanted := false
+			for _, w := range k.Langs {
+				wanted = wanted || w == l
+			}
+			if !wanted {
+				delete(res.GenErr, l)
+			}
+		}
+	}
 	if res.Panic != "" {
 		x.Panic = res.Panic
 		return x
@@ -447,24 +466,101 @@ func findField(p *dsl.Program, owner, name string) *dsl.Field {
 	return nil
 }
 
-// filesViaCLI compiles text with the built CLI into output directories that already contain a
-// longer "previous revision" of every file, and returns what is on disk afterwards.
+// prevRevision returns an earlier revision of the same DSL text: an edit that a user might have
+// undone, chosen so that some emitted files keep their exact size (a number type replaced by
+// another of the same name length, two integer match keys of equal length exchanged).
+func prevRevision(text string, pick int) string {
+	swaps := [][2]string{{"u32", "f32"}, {"i32", "u32"}, {"u16", "i16"}, {"i64", "f64"}, {"u64", "i64"}, {"f32", "i32"}, {"u8", "i8"}}
+	n := len(swaps)
+	for j := 0; j < n; j++ {
+		sw := swaps[(pick+j)%n]
+		re := regexp.MustCompile(`(^|[\s{])` + sw[0] + `(\s+[A-Za-z_])`)
+		if loc := re.FindStringSubmatchIndex(text); loc != nil {
+			m := re.FindStringSubmatch(text)
+			return text[:loc[0]] + m[1] + sw[1] + m[2] + text[loc[1]:]
+		}
+	}
+	return ""
+}
+
+var keyPairRe = regexp.MustCompile(`(?s)(\n\s*)(\d+)(\s*:\s*)([A-Za-z_]\w*)(\s*,\s*\n\s*)(\d+)(\s*:\s*)([A-Za-z_]\w*)`)
+
+// prevRevisionKeys exchanges the targets of two neighbouring single integer keys.
+func prevRevisionKeys(text string) string {
+	for _, loc := range keyPairRe.FindAllStringSubmatchIndex(text, -1) {
+		m := keyPairRe.FindStringSubmatch(text[loc[0]:loc[1]])
+		if m[4] != m[8] && len(m[4]) == len(m[8]) {
+			return text[:loc[0]] + m[1] + m[2] + m[3] + m[8] + m[5] + m[6] + m[7] + m[4] + text[loc[1]:]
+		}
+	}
+	return ""
+}
+
+// filesViaCLI compiles text with the built CLI into output directories that are not empty, as
+// after an earlier compile of a previous revision of the DSL, and returns what is on disk
+// afterwards. What the directories hold beforehand is chosen by a hash of the text:
+// a longer previous revision of every file; the output of a previous revision of the text that
+// differs in one number type or in the targets of two match keys (compiled by the same CLI into
+// the same directories: files of equal size and nearly equal content); files of equal size that
+// differ only in their last bytes; shorter files.
 func filesViaCLI(text string, langs []string, inproc map[string]map[string][]byte) (map[string]map[string][]byte, string) {
 	dir := cli.Scratch("viacli")
 	defer os.RemoveAll(dir)
 	in := filepath.Join(dir, "in.dsl")
-	_ = os.WriteFile(in, []byte(text), 0o644)
+	h := 0
+	for _, c := range []byte(text) {
+		h = (h*31 + int(c)) & 0xffffff
+	}
 	args := []string{"compile", "-f", in}
 	for _, l := range langs {
-		out := filepath.Join(dir, "out_"+l)
-		for name, b := range inproc[l] {
-			fp := filepath.Join(out, name)
-			_ = os.MkdirAll(filepath.Dir(fp), 0o755)
-			stale := append(append([]byte{}, b...), []byte("\nthis is the tail of a previous, longer revision of the file {{{ \n")...)
-			_ = os.WriteFile(fp, stale, 0o644)
-		}
-		args = append(args, cli.Flags[l], out)
+		args = append(args, cli.Flags[l], filepath.Join(dir, "out_"+l))
 	}
+	kind := h % 5
+	staged := false
+	if kind == 1 || kind == 2 {
+		prev := ""
+		if kind == 2 {
+			prev = prevRevisionKeys(text)
+		}
+		if prev == "" {
+			prev = prevRevision(text, h/5)
+		}
+		if prev != "" {
+			_ = os.WriteFile(in, []byte(prev), 0o644)
+			if r := cli.Run(dir, 120*time.Second, nil, nil, cli.Bin(), args...); r.Exit == 0 {
+				staged = true
+			} else {
+				for _, l := range langs {
+					os.RemoveAll(filepath.Join(dir, "out_"+l))
+				}
+			}
+		}
+	}
+	if !staged {
+		for _, l := range langs {
+			out := filepath.Join(dir, "out_"+l)
+			for name, b := range inproc[l] {
+				fp := filepath.Join(out, name)
+				_ = os.MkdirAll(filepath.Dir(fp), 0o755)
+				stale := append([]byte{}, b...)
+				switch kind {
+				case 3, 1, 2:
+					// same size, only the last bytes differ
+					for i := len(stale) - 1; i >= 0 && i >= len(stale)-40; i-- {
+						if stale[i] != '\n' {
+							stale[i] = '#'
+						}
+					}
+				case 4:
+					stale = stale[:len(stale)/2]
+				default:
+					stale = append(stale, []byte("\nthis is the tail of a previous, longer revision of the file {{{ \n")...)
+				}
+				_ = os.WriteFile(fp, stale, 0o644)
+			}
+		}
+	}
+	_ = os.WriteFile(in, []byte(text), 0o644)
 	r := cli.Run(dir, 120*time.Second, nil, nil, cli.Bin(), cli.Respell(args, text)...)
 	if r.Exit != 0 {
 		return nil, fmt.Sprintf("exit %d: %s", r.Exit, clip(string(r.Stdout)+string(r.Stderr), 200))
